@@ -23,7 +23,13 @@ RULE = (
     "bind, band containment, seed containment and direction, score_only agreement. Each case is executed once; a "
     "case is non-trivial when the returned alignment is non-empty and either contains a gap column, or the "
     "restriction is active (band does not cover the table / threshold may bind / direction is one-sided), or "
-    "several alignments are returned."
+    "several alignments are returned. Size-switch family 'long': align_local_gapped on every pair of the listed "
+    "lengths around the initial table capacity (regions of 98..204 symbols: exact fit, growth of rows only, columns "
+    "only, both, two growth steps) x seeds at start / middle / end x 3 directions x linear and affine penalty x "
+    "thresholds {10^6, 6}, full + score_only call, oracle = O(nm) reference DP (cross-checked against the "
+    "enumeration in the same shard); for threshold 10^6 the smallest accepted max_table_size is located by bisection "
+    "and both sides of it are executed with and without traceback tables; plus align_local_ungapped (uint8 and "
+    "generic path) and align_banded on the same long pairs; non-trivial there = a table had to grow."
 )
 ASSUMPTIONS = [
     "matrix entries stay far from the int32 range (largest entry 100000)",
@@ -40,6 +46,12 @@ ASSUMPTIONS = [
     "semi-global completion: unaligned prefix and suffix of BOTH sequences are added as gap columns before "
     "rescoring; when the order of two prefixes / the side of a sequence that does not occur in the trace is "
     "ambiguous, every completion is tried and one match suffices",
+    "long family: the initial capacity 100 x 100 of the tables of align_local_gapped (INIT_SIZE) is taken from the "
+    "source, only to place the lengths on both sides of the switch and to know which calls have to grow a table; the "
+    "max_table_size oracle itself is policy-free: MemoryError is demanded when the limit is below the (a+1)(b+1) "
+    "cells of a completely explored region that needs growth, the unlimited result when it is >= 4x the explored "
+    "cells, MemoryError-or-identical in between, and monotone behaviour around the located switch point; while "
+    "the family runs the worker's address space is capped at 3 GB so that runaway growth shows as a violation",
     "the number of returned alignments <= max_number is documented for all three functions and checked under its "
     "own failure mode (too_many); duplicates in the list are not a violation of C09",
 ]
